@@ -91,6 +91,32 @@ type LemmaRun struct {
 	Queries, Sat, Unsat int
 	SolverSec   float64
 	BuildErr    string
+	Cross       []crossQuery
+	crossSeen   int
+	CrossAgree  int
+	CrossDisagree int
+	CrossOther  map[string]int
+}
+
+// noteCrossQuery keeps a sample of final assertion queries for re-discharge with other solvers.
+func (l *LemmaRun) noteCrossQuery(label, res string, script []string) {
+	l.mu.Lock()
+	defer l.mu.Unlock()
+	l.crossSeen++
+	const keep = 40
+	cq := crossQuery{Label: label, Z3: res, Script: append(append([]string{}, script...), "(check-sat)")}
+	if len(l.Cross) < keep {
+		l.Cross = append(l.Cross, cq)
+	} else if k := l.crossSeen % (keep * 7); k < keep && l.crossSeen%7 == 0 {
+		l.Cross[k] = cq
+	}
+}
+
+type crossQuery struct {
+	Label  string
+	Z3     string
+	Script []string
+	Other  map[string]string
 }
 
 func (l *LemmaRun) noteUnknown()                  { l.mu.Lock(); l.Unknowns++; l.mu.Unlock() }
